@@ -259,6 +259,8 @@ pub fn cmd_sweep(args: &[String]) -> i32 {
     }
     crate::crumb::done();
 
+    // a sweep run on behalf of one property reports only that property's oracles
+    found.retain(|f| f.oracle.starts_with(prop.as_str()));
     // confirm each finding through the ordinary executor and write its replay file
     let mut corpus = Corpus { root: root.clone(), ..Default::default() };
     let mut out_found = Vec::new();
